@@ -12,7 +12,9 @@ RULE = ("(1) per-seed prediction: `gotree sample -n k [--replace] --seed s` on f
         "rand stream of s and the Coq model of the loop, driven by that stream, must predict exactly which trees / tips the binary "
         "selected; Tree.ShuffleTips on random trees in the worker, same prediction; (2) enumeration cases: the model is run on "
         "EVERY choice vector of small instances and the outcome distribution is judged exactly; (3) extra: outcome frequencies of "
-        "the binary over many seeds, exact binomial tests and a support check (supporting evidence only). Non-trivial = a "
+        "the binary over many seeds, exact binomial tests and a support check (supporting evidence only); unseeded stream: every "
+        "random command run 8 times in fresh processes without --seed and with --seed -1 on inputs with >= 20 equally likely "
+        "outcomes must not print 8 identical results (false alarm probability <= 20^-7 per command). Non-trivial = a "
         "prediction was compared / an enumeration was run; distinct = distinct case text")
 TRUSTED = ["the real gotree binary is run by the driver (build/gotree, go build of /repo); its output is parsed by regular expressions "
            "(tree labels t<i>, tip names)",
@@ -171,6 +173,27 @@ def gen(rng, tier):
             k = rng.randint(3, 5) if rev else rng.randint(1, 2)
             s = rng.randrange(1, 2**31)
             f = os.path.join(d, "m%d.nw" % i)
+            open(f, "w").write("".join(newick(t) + "\n" for t in trees))
+            jobs.append((["prune", "-i", f, "--random", str(k), "--seed", str(s)] + (["-r"] if rev else []), d))
+            metas.append(("prunemulti", tipss, k, rev, s))
+        # trees of DIFFERENT sizes in one file, some smaller than k (keep-only mode: a tree with n <= k keeps all its
+        # tips; remove mode: k below every size), smaller first and larger first
+        for i in range({"quick": 24, "thorough": 300, "search": 20}[tier]):
+            rev = i % 3 != 0
+            szs = [rng.randint(3, 4), rng.randint(8, 12)] + ([rng.randint(5, 7)] if rng.random() < 0.5 else [])
+            if i % 2:
+                szs.reverse()
+            k = rng.randint(5, 7) if rev else rng.randint(1, 2) if min(szs) - 2 < 3 else rng.randint(1, min(szs) - 3)
+            if not rev:
+                szs = [max(x, k + 3) for x in szs]
+            trees, tipss = [], []
+            for j, n in enumerate(szs):
+                names = ["w%d_%d" % (j, x) for x in range(n)]
+                t = g.decorate(g.shape(names, maxdeg=4, rootdeg=3), lenmode="all", supmode="none")
+                trees.append(t)
+                tipss.append(leaves(t))
+            s = rng.randrange(1, 2**31)
+            f = os.path.join(d, "ms%d.nw" % i)
             open(f, "w").write("".join(newick(t) + "\n" for t in trees))
             jobs.append((["prune", "-i", f, "--random", str(k), "--seed", str(s)] + (["-r"] if rev else []), d))
             metas.append(("prunemulti", tipss, k, rev, s))
@@ -422,6 +445,29 @@ def extra(tier, seed, st):
                         fails.append((nm + " [other bias]", det + "; NOT the known root-branch defect: " + other, bd))
                 continue
             _judge_freq(name, counts, outs, S, fails, info, body)
+        # ---- unseeded runs: without --seed (and with the documented --seed -1 = "use the clock") 8 fresh processes
+        #      must not all print the same thing (>= 20 equally likely outcomes: failure probability <= 20^-7)
+        f30 = _write_trees(d, 30, "u30.nw")
+        fstar = os.path.join(d, "ustar.nw")
+        open(fstar, "w").write("(" + ",".join("t%d" % i for i in range(30)) + ");\n")
+        fsh = os.path.join(d, "ush.nw")
+        open(fsh, "w").write("((a,b),(c,d),(e,f));\n")
+        unseeded = [("sample", ["sample", "-i", f30, "-n", "1"]), ("sample --replace", ["sample", "-i", f30, "-n", "2", "--replace"]),
+                    ("prune --random", ["prune", "-i", fstar, "--random", "1"]), ("shuffletips", ["shuffletips", "-i", fsh]),
+                    ("generate uniformtree", ["generate", "uniformtree", "-l", "7"]), ("generate yuletree", ["generate", "yuletree", "-l", "7"])]
+        for label, argv in unseeded:
+            for how, extra_args in (("without --seed", []), ("with --seed -1", ["--seed", "-1"])):
+                res = _runs([(argv + extra_args, d) for _ in range(8)], workers=4)
+                info["evaluations"] += 8
+                name = "unseeded %s %s" % (label, how)
+                outs8 = [so for rc, so in res]
+                if any(rc != 0 for rc, so in res):
+                    fails.append((name, "`gotree %s` failed" % " ".join(argv + extra_args), {"argv": argv + extra_args}))
+                elif len(set(outs8)) == 1:
+                    fails.append((name, "8 fresh runs of `gotree %s` print exactly the same result: %r" %
+                                  (" ".join(argv + extra_args), outs8[0][:80]), {"argv": argv + extra_args}))
+                else:
+                    info["distinct_nontrivial"] += 1
     finally:
         shutil.rmtree(d, ignore_errors=True)
     return fails, info
